@@ -64,7 +64,8 @@ type chRun struct {
 	customErr   *chCustomErr
 	foreignVal  interface{}
 	rootPay     *chPay
-	raisedExc   *goja.Exception // the *Exception the raiser panicked with / returned (samePtr)
+	mkRoot      func() goja.Value // makes the payload value inside the raiser (Error objects capture their stack when made)
+	raisedExc   *goja.Exception   // the *Exception the raiser panicked with / returned (samePtr)
 
 	failRule, failMsg string
 }
@@ -422,7 +423,9 @@ func (d *chDyn) Has(key string) bool         { return key == "x" }
 func (d *chDyn) Delete(string) bool          { return false }
 func (d *chDyn) Keys() []string              { return []string{"x"} }
 
-// registerFrame installs native frame k.
+// registerFrame installs native frame k. The reflect-style natives take an unused parameter so that their Go type differs
+// from the func types the ExportTo frames ask for: ExportTo of a wrapped Go func to its own type hands back the Go func
+// itself and the call would not go through goja at all.
 func (r *chRun) registerFrame(k int) {
 	rt := r.rt
 	f := r.frames[k-1]
@@ -648,6 +651,9 @@ func (r *chRun) registerNativeRaiser() {
 					r.raisedExc = r.preExcPrim
 					panic(r.preExcPrim)
 				}
+				if r.rootPay.val == nil {
+					r.rootPay.val = r.mkRoot()
+				}
 				panic(r.rootPay.val)
 			case chPayloadForeign(p):
 				r.fired = true
@@ -714,7 +720,8 @@ func (r *chRun) rootState() chState {
 		st := chState{kind: csThrow, p: pay, strictTop: true, someTop: true}
 		if p == cpJsEarlierGoError {
 			pay.val, pay.hasGo, pay.goErr, pay.isA = r.preGo, true, r.preGoErr, true
-			st.strictTop = false // its stack is that of the earlier NewGoError call
+			// its stack is that of the earlier NewGoError call, made by the host while no script was running: empty
+			st.strictTop, st.someTop = false, false
 		}
 		r.rootPay = pay
 		return st
@@ -740,9 +747,11 @@ func (r *chRun) rootState() chState {
 		case cpGoArray:
 			pay = known("[Array]", rt.NewArray(1, 2))
 		case cpGoTypeError:
-			pay = known("[Error]", rt.NewTypeError("go-made TypeError"))
+			pay = known("[Error]", nil)
+			r.mkRoot = func() goja.Value { return rt.NewTypeError("go-made TypeError") }
 		case cpGoGoError:
-			pay = known("[Error]", rt.NewGoError(chSentA))
+			pay = known("[Error]", nil)
+			r.mkRoot = func() goja.Value { return rt.NewGoError(chSentA) }
 			pay.hasGo, pay.goErr, pay.isA = true, chSentA, true
 		case cpGoException:
 			pay = known("[Error]", r.preExc.Value())
@@ -750,7 +759,8 @@ func (r *chRun) rootState() chState {
 			pay = known("string", r.preExcPrim.Value())
 		}
 		r.rootPay = pay
-		return chState{kind: csThrow, p: pay, someTop: true, samePtr: p == cpGoException || p == cpGoExceptionPrim}
+		pre := p == cpGoException || p == cpGoExceptionPrim // the earlier exception keeps the stack it was given then
+		return chState{kind: csThrow, p: pay, someTop: pre, topIfAny: !pre, samePtr: pre}
 	case chPayloadGoErr(p):
 		if p == cpErrException {
 			pay := known("[Error]", r.preExc.Value())
@@ -774,7 +784,7 @@ func (r *chRun) rootState() chState {
 			pay.nwraps = 1
 		}
 		r.rootPay = pay
-		return chState{kind: csThrow, p: pay, someTop: true}
+		return chState{kind: csThrow, p: pay, topIfAny: true}
 	case chPayloadForeign(p):
 		switch p {
 		case cpForeignString:
@@ -831,11 +841,13 @@ func chScript(frames []chFrame, entry, payload, flavour int) (string, int) {
 		case cjProxy:
 			emit(`var pj%d = new Proxy({}, { get: function(t, p, r){ return %s(); } }); function %s(){ return pj%d.x; }`, k, nx, fn, k)
 		case cjGen:
-			switch f.sel % 3 {
-			case 0:
+			switch f.sel % nGenSel {
+			case genForOf:
 				emit(`function* gn%d(){ yield %s(); } function %s(){ for (var v of gn%d()) { return v; } }`, k, nx, fn, k)
-			case 1:
+			case genNext:
 				emit(`function* gn%d(){ yield %s(); } function %s(){ return gn%d().next().value; }`, k, nx, fn, k)
+			case genDestructure:
+				emit(`function* gn%d(){ yield %s(); } function %s(){ var [v] = gn%d(); return v; }`, k, nx, fn, k)
 			default:
 				emit(`function* gn%d(){ yield %s(); } function %s(){ return [...gn%d()][0]; }`, k, nx, fn, k)
 			}
